@@ -126,9 +126,9 @@ impl Check for C06 {
     }
     fn n_runs(&self, thorough: bool) -> u64 {
         if thorough {
-            200_000
+            3_000_000
         } else {
-            8_000
+            100_000
         }
     }
     fn gen_plan(&self, seed: u64, idx: u64, _t: bool) -> Value {
